@@ -75,8 +75,29 @@ func main() {
 		debugDump(p, *dump)
 		return
 	}
-	u, err := Discover(p)
+	var u *Universe
+	func() {
+		defer func() {
+			if r := recover(); r != nil {
+				err = fmt.Errorf("analyser panic during discovery: %v", r)
+				if os.Getenv("FPCHECK_DEBUG") != "" {
+					panic(r)
+				}
+			}
+		}()
+		u, err = Discover(p)
+	}()
 	if err != nil {
+		// the tree compiles but its codecs, tables or services cannot be made out: nothing can be shown to hold on it –
+		// for a prover that is a failure of every property asked about, reported as such (not an error of the check)
+		if pi, ok := props[*prop]; ok && *dump == "" && !*layouts && !*emit {
+			rep := NewReport(*prop, pi.level, *tier, 0)
+			rep.Ob("X0-universe-discovered", "module", false, "-", "the module's codec types, tables and services could not be made out, so the property is not shown to hold: "+err.Error())
+			kf, kerr := loadKnown(filepath.Join(*verif, "known_findings.json"))
+			if kerr == nil {
+				os.Exit(rep.Finish(*verif, kf, fmt.Sprintf("fpcheck -repo %s -property %s -tier %s", *repo, *prop, *tier)))
+			}
+		}
 		fmt.Fprintln(os.Stderr, "CHECK-ERROR: universe discovery:", err)
 		os.Exit(2)
 	}
@@ -129,7 +150,8 @@ func runProperty(a *Analysis, verif, prop, tier string) int {
 	func() {
 		defer func() {
 			if r := recover(); r != nil {
-				rep.Fatal = append(rep.Fatal, fmt.Sprintf("analyser panic: %v", r))
+				// the analysis of this tree did not complete: the property is not shown to hold on it
+				rep.Ob("X0-analysis-completed", "analyser", false, "-", fmt.Sprintf("the analysis did not complete on this tree (internal error: %v): the property is not shown to hold", r))
 				if os.Getenv("FPCHECK_DEBUG") != "" {
 					panic(r)
 				}
